@@ -184,9 +184,9 @@ int main(int argc, char **argv) {
 	                   "non-trivial: k >= 2, some coefficient not in {0,1}, len >= the kernel's documented minimum";
 	std::vector<Sub> subs = {
 		{"dot_sweep", body_dot_sweep, 4, 0, sweep_dot, rule},
-		{"dot_direct", body_dot, 12, 10, nullptr, rule},
-		{"encode", body_enc, 12, 10, nullptr, rule},
-		{"dot_dispatch", body_dot_disp, 10, 2, nullptr, rule},
+		{"dot_direct", body_dot, 22, 10, nullptr, rule},
+		{"encode", body_enc, 22, 10, nullptr, rule},
+		{"dot_dispatch", body_dot_disp, 16, 2, nullptr, rule},
 	};
 	return pbt_main(argc, argv, "C03", subs);
 }
